@@ -225,7 +225,7 @@ def _mentions(t, name):
 
 # -- K6: importer folds every square exactly once ----------------------------------------
 
-def rule_k6(ctx, F):
+def rule_k6(ctx, F, parts=("rank", "slots", "final", "side")):
     fn = F.fn("chess::Game::new")
     body = fn["hir"]["body"]
     env = hir.Env(fn["hir"], F)
@@ -262,12 +262,13 @@ def rule_k6(ctx, F):
             conds = [hir.fmt(c, 200) for c in cnf]
             has = any(c in (("bin", "!=", ("var", "col"), ("lit", 8)), ("bin", "<", ("var", "col"), ("lit", 8)),
                             ("not", ("bin", "==", ("var", "col"), ("lit", 8)))) for c in cnf)
-            ctx.check("C04.K6", "rank-complete-before-separator", has, fn=fn["path"], file=fn["file"], line=hir.line(arm),
+            if "rank" in parts:
+              ctx.check("C04.K6", "rank-complete-before-separator", has, fn=fn["path"], file=fn["file"], line=hir.line(arm),
                       what="the '/' arm of the FEN board scanner does not require a complete rank (col == 8): "
                            "squares left out get no empty-square key and the import hashes differently",
                       expected="a test of col against 8 that bails out", found=conds)
             continue
-        for n, anc in advances:
+        for n, anc in (advances if "slots" in parts else []):
             n_adv += 1
             amount = hir.sym_int(sym(n["r"]))
             # the nearest enclosing block must also write exactly `amount` past_hashes slots (per iteration)
@@ -283,13 +284,16 @@ def rule_k6(ctx, F):
                       fn=fn["path"], file=fn["file"], line=hir.line(n),
                       what="the scanner advances the column without assigning exactly one square key per square",
                       expected="one past_hashes[..] assignment per column advanced", found="advance by %s, %d slot write(s) in scope" % (amount, len(writes_here)))
-    ctx.floor("C04.K6", "column advances", n_adv, 2)
+    if "slots" in parts:
+        ctx.floor("C04.K6", "column advances", n_adv, 2)
+        empties_hashed(ctx, F)
     # final completeness test
     cnf = [hir.canon(hir.resolve_consts(sym(x["cond"]), F)) for x, _ in hir.walk(body) if x.get("k") == "If"]
     conds = [hir.fmt(c, 200) for c in cnf]
     parts = {("bin", "!=", ("var", "row"), ("lit", 0)), ("bin", "!=", ("var", "col"), ("lit", 8))}
     has = any(c[0] == "bin" and c[1] == "||" and {c[2], c[3]} == parts for c in cnf)
-    ctx.check("C04.K6", "final-board-size-test", has, fn=fn["path"], file=fn["file"],
+    if "final" in parts:
+      ctx.check("C04.K6", "final-board-size-test", has, fn=fn["path"], file=fn["file"],
               what="Game::new no longer checks that the scan ended on (row 0, col 8)",
               expected="row != 0 || col != 8 => error", found=[c for c in conds if "row" in c or "col" in c][:4])
     # side key iff Black, state key once
@@ -300,8 +304,37 @@ def rule_k6(ctx, F):
     gtxt = [hir.fmt(x[1], 100) for x in (g or []) if x[0] == "if"]
     ok = ok and any(x[0] == "if" and x[2] is True and x[1][0] == "bin" and x[1][1] == "==" and
                     ("variant", "chess::Player::Black") in (x[1][2], x[1][3]) for x in (g or []))
-    ctx.check("C04.K6", "side-key-iff-black", ok, fn=fn["path"], file=fn["file"],
-              what="the importer does not xor the side key exactly when Black is to move", found=gtxt)
+    if "side" in parts:
+        ctx.check("C04.K6", "side-key-iff-black", ok, fn=fn["path"], file=fn["file"],
+                  what="the importer does not xor the side key exactly when Black is to move", found=gtxt)
+
+
+def empties_hashed(ctx, F):
+    """Empty squares carry zobrist::EMPTY_PLACE, in the incremental writer and in the importer (published layout)."""
+    sp = F.fn("chess::Game::set_position")
+    sym = hir.Sym(hir.Env(sp["hir"], F), F)
+    ok = False
+    found = None
+    for n, anc in hir.walk(sp["hir"]["body"]):
+        if n.get("k") == "Assign":
+            r = sym(n["r"])
+            t = hir.fmt(r, 300)
+            if "Piece::hash(" in t:
+                found = t
+                ok = r[0] == "call" and str(r[1]).endswith("unwrap_or") and r[2][-1] == ("const", "chess::zobrist::EMPTY_PLACE")
+    ctx.check("C04.K5", "empty-square-key:set_position", ok, fn=sp["path"], file=sp["file"],
+              what="an emptied square must contribute zobrist::EMPTY_PLACE (the published combination of key-file entries)",
+              expected="place.map(hash).unwrap_or(EMPTY_PLACE)", found=found)
+    nw = F.fn("chess::Game::new")
+    nsym = hir.Sym(hir.Env(nw["hir"], F), F)
+    n_empty = 0
+    for n, anc in hir.walk(nw["hir"]["body"]):
+        if n.get("k") == "Assign" and nsym(n["r"]) == ("const", "chess::zobrist::EMPTY_PLACE"):
+            l = hir.strip(n["l"])
+            if l.get("k") == "Index" and _mentions(nsym(l["e"]), "past_hashes"):
+                n_empty += 1
+    ctx.check("C04.K5", "empty-square-key:importer", n_empty == 1, fn=nw["path"], file=nw["file"],
+              what="the importer must give every empty square the key zobrist::EMPTY_PLACE", found=n_empty)
 
 
 def _inside(a, root):
